@@ -37,7 +37,7 @@ Succeeds(db, c) == CASE c.op = "unset" -> Has(db, NormName(c.name))
                      [] c.op = "info" -> Has(db, NormName(c.name))
                      [] c.op = "resolve" -> Has(db, NormName(c.name))
                      [] c.op = "resolvedefault" -> Has(db, "default")
-                     [] c.op \in {"resolvemix", "resolvemix2"} -> Has(db, NormName(c.name))
+                     [] c.op \in {"resolvemix", "resolvemix2", "resolveblank"} -> Has(db, NormName(c.name))
                      [] c.op = "clearask" -> c.answer # ""          \* nothing to read: the command fails
                      [] OTHER -> TRUE
 After(db, c) == CASE c.op = "set" -> Put(db, NormName(c.name), c.file)
@@ -66,5 +66,7 @@ ToArgs(c) ==
       (* a bookmark next to a plain file, in both orders: the records of both *)
       [] c.op = "resolvemix" -> <<"total", "--decimal", "--no-warn", "--no-style", Files[1], "@" \o NormName(c.name)>>
       [] c.op = "resolvemix2" -> <<"total", "--decimal", "--no-warn", "--no-style", "@" \o NormName(c.name), Files[2]>>
+      (* blank arguments are ignored *)
+      [] c.op = "resolveblank" -> <<"total", "--decimal", "--no-warn", "--no-style", "", "@" \o NormName(c.name), " ">>
       [] c.op = "clearask" -> <<"bookmarks", "clear">>
 =============================================================================
